@@ -1,4 +1,4 @@
 SPECIFICATION TSpec
-INVARIANTS NonNeg UnitsAreHeld ClaimsBacked NoGain
+INVARIANTS SetStakesPositive NonNeg UnitsAreHeld ClaimsBacked NoGain
 POSTCONDITION TraceAccepted
 CHECK_DEADLOCK FALSE
